@@ -254,6 +254,10 @@ def or_(*xs: Term) -> Term:
 def isin(t: Term, members: Any) -> Term:
     """members: an iterable of terms (literal collection) or a single term (symbolic collection)"""
     if isinstance(members, tuple) and members and isinstance(members[0], str):
+        # law: s.isin([x for x in s.unique() if P(x)]) == P(s)   (the values of the column that satisfy P, selected from the column's own distinct values)
+        if len(members) == 5 and members[0] == "comp" and members[1] in ("list", "set") and isinstance(members[3], tuple) and members[3] and members[3][0] == "unique" \
+                and members[3][1] == t and members[2] == ("elem", members[3]):
+            return renorm(replace(members[4], {("elem", members[3]): t}))
         return ("in", t, members)  # symbolic collection term
     ms = tuple(sorted(set(members), key=_key))
     if len(ms) == 1:
@@ -543,3 +547,32 @@ def as_cases(t: Any):
     if isinstance(t, tuple) and len(t) == 4 and t[0] == "ite":
         return [(t[1], t[2]), (not_(t[1]), t[3])]
     return None
+
+
+def boolnorm(t: Any) -> Any:
+    """push a test into a case split whose values are all constants:
+         truthy(cases((c_i, v_i)))        -> OR of the c_i with truthy v_i
+         cases((c_i, v_i)) == k / != k    -> OR of the c_i with v_i == k  (negated for !=)
+       (a comparison evaluated inside each branch and one evaluated on the merged value are the same predicate)"""
+    if not isinstance(t, tuple) or not t:
+        return t
+    t = tuple(boolnorm(x) for x in t)
+
+    def consts(items):
+        return all(is_const(v) for _, v in items)
+    if t[0] == "truthy" and len(t) == 2 and as_cases(t[1]) is not None and consts(as_cases(t[1])):
+        return or_(*[c for c, v in as_cases(t[1]) if v[1]]) if any(v[1] for _, v in as_cases(t[1])) else FALSE
+    if t[0] == "truthy" and len(t) == 2 and isinstance(t[1], tuple) and t[1] and (t[1][0] in ("cmp", "eq", "ne", "and", "or", "not", "in", "notnull") or t[1] in (TRUE, FALSE)):
+        return t[1]
+    if t[0] in ("eq", "ne") and len(t) == 3:
+        a, b = t[1], t[2]
+        if is_const(b) and as_cases(a) is not None:
+            a, b = b, a
+        if is_const(a) and as_cases(b) is not None and consts(as_cases(b)):
+            hit = [c for c, v in as_cases(b) if v == a]
+            r = or_(*hit) if hit else FALSE
+            return r if t[0] == "eq" else not_(r)
+    if as_cases(t) is not None and consts(as_cases(t)) and all(isinstance(v[1], bool) for _, v in as_cases(t)):
+        hit = [c for c, v in as_cases(t) if v[1]]
+        return or_(*hit) if hit else FALSE
+    return t
